@@ -191,6 +191,10 @@ func (h *handshake) release() {
 	h.remoteAck.Error = 0
 	h.remoteCred.Type = 0
 	h.remoteCred.Payload = h.remoteCred.Payload[:0]
+	// UnmarshalVT leaves absent fields untouched: without this the next peer that omits
+	// version/clientVersion would be checked and labelled with the previous peer's values
+	h.remoteCred.Version = 0
+	h.remoteCred.ClientVersion = ""
 	h.remoteProto.Proto = 0
 	h.remoteProto.Encodings = h.remoteProto.Encodings[:0]
 	handshakePool.Put(h)
